@@ -203,3 +203,32 @@ def continue_only(cfg, start, region, header):
     leaves = any((y not in region and y != header) for x in r for y in cfg.succ[x])
     dead_end = any(not cfg.succ[x] for x in r)
     return (reaches and not leaves and not dead_end), r
+
+
+def base_local(body, op_or_place):
+    """The local a reference operand ultimately points to, following `_a = &mut _b`, `_a = &(*_b)`
+    and plain copies of references (single definitions only)."""
+    pl = op_or_place.get("c") or op_or_place.get("m") if ("c" in op_or_place or "m" in op_or_place) else op_or_place
+    if pl is None or "l" not in pl:
+        return None
+    l = pl["l"]
+    if any(isinstance(e, dict) for e in pl["p"]):
+        return l
+    for _ in range(12):
+        sd = body.single_def(l)
+        if not sd or sd[0] != "stmt":
+            return l
+        rv = sd[3]["rv"]
+        if rv["k"] in ("ref", "rawptr"):
+            p2 = rv["place"]
+        elif rv["k"] == "use" and ("c" in rv["op"] or "m" in rv["op"]):
+            p2 = rv["op"].get("c") or rv["op"].get("m")
+            # follow copies of references, and moves into compiler temporaries
+            if not body.local_ty(p2["l"]).startswith("&") and body.locals[l].get("user"):
+                return l
+        else:
+            return l
+        if any(isinstance(e, dict) for e in p2["p"]):
+            return l
+        l = p2["l"]
+    return l
